@@ -204,12 +204,26 @@ func (g *gen) c04Script(n int, burst bool) string {
 	pid := 0
 	pendingReads := 0
 	for i := 0; i < n && !b.full(); i++ {
-		sc := g.r.Intn(10)
+		sc := g.r.Intn(11)
 		if burst {
 			sc = 0
 		}
 		g.stats[fmt.Sprintf("c04.scenario%d", sc)]++
 		switch sc {
+		case 10: // the acknowledgement of a fresh telegram cannot be sent (transient socket error);
+			// the gateway, unanswered, repeats the request: the telegram was accepted the first time
+			if tcp {
+				continue
+			}
+			pid++
+			b.at(1, "sockfail 1")
+			b.at(0, fmt.Sprintf("rx treq %d %d %d", ch, exp, pid))
+			exp = (exp + 1) % 256
+			pendingReads++
+			b.at(0, "sockfail 0")
+			for k := 1 + g.r.Intn(2); k > 0; k-- {
+				b.at(1, fmt.Sprintf("rx treq %d %d %d", ch, (exp+255)%256, pid))
+			}
 		case 0, 1, 2, 3: // in sequence
 			pid++
 			b.at(g.pick(0, 0, 1), fmt.Sprintf("rx treq %d %d %d", ch, exp, pid))
